@@ -443,25 +443,37 @@ fn heap_cases(em: &mut Emit, rng: &mut Rng, n: u64) {
         }
     }
     envw.push(')');
-    let mut ctx = Context::default();
-    for (i, v) in env.iter().enumerate() {
-        ctx.add_variable_from_value(format!("h{}", i), v.clone());
-    }
-    // the harness's own clones in `env` are one extra owner of every buffer
-    let owners = |v: &Value| -> i64 {
+    // the context is the only owner of its buffers (as it is when a host hands its data over):
+    // the harness keeps addresses, not handles
+    let addr = |v: &Value| -> usize {
         match v {
-            Value::List(a) => Arc::strong_count(a) as i64 - 1,
-            Value::String(a) => Arc::strong_count(a) as i64 - 1,
+            Value::List(a) => Arc::as_ptr(a) as *const () as usize,
+            Value::String(a) => Arc::as_ptr(a) as *const () as usize,
+            _ => 0,
+        }
+    };
+    let addrs: Vec<usize> = env.iter().map(|v| addr(v)).collect();
+    let nvars = env.len();
+    let mut ctx = Context::default();
+    for (i, v) in env.into_iter().enumerate() {
+        ctx.add_variable_from_value(format!("h{}", i), v);
+    }
+    // looking a variable up clones it: that handle is one extra owner while it is inspected
+    let owners = |ctx: &Context, i: usize| -> i64 {
+        match ctx.get_variable(format!("h{}", i).as_str()) {
+            Ok(Value::List(a)) => Arc::strong_count(&a) as i64 - 1,
+            Ok(Value::String(a)) => Arc::strong_count(&a) as i64 - 1,
             _ => -1,
         }
     };
     for _ in 0..n {
         let depth = 1 + rng.below(4) as u32;
         let kind = rng.below(3);
-        let e = hx_gen(rng, depth, env.len(), kind);
+        let e = hx_gen(rng, depth, nvars, kind);
         let src = hx_src(&e);
         let ctxr = &ctx;
-        let envr = &env;
+        let addrs_r = &addrs;
+        let owners_r = &owners;
         let s2 = src.clone();
         let imp = guarded(std::panic::AssertUnwindSafe(move || {
             let p = match Program::compile(&s2) {
@@ -470,8 +482,14 @@ fn heap_cases(em: &mut Emit, rng: &mut Rng, n: u64) {
             };
             let r = p.execute(ctxr);
             let alias: i64 = match &r {
-                Ok(Value::List(a)) => envr.iter().position(|v| matches!(v, Value::List(b) if Arc::ptr_eq(a, b))).map(|i| i as i64).unwrap_or(-1),
-                Ok(Value::String(a)) => envr.iter().position(|v| matches!(v, Value::String(b) if Arc::ptr_eq(a, b))).map(|i| i as i64).unwrap_or(-1),
+                Ok(v @ Value::List(_)) | Ok(v @ Value::String(_)) => {
+                    let a = match v {
+                        Value::List(x) => Arc::as_ptr(x) as *const () as usize,
+                        Value::String(x) => Arc::as_ptr(x) as *const () as usize,
+                        _ => 0,
+                    };
+                    addrs_r.iter().position(|p| *p == a).map(|i| i as i64).unwrap_or(-1)
+                }
                 _ => -1,
             };
             let out = match &r {
@@ -481,7 +499,7 @@ fn heap_cases(em: &mut Emit, rng: &mut Rng, n: u64) {
             };
             // an error value keeps the operands it reports alive; it is not a result: drop it first
             let r = r.ok();
-            let counts: Vec<String> = envr.iter().map(|v| owners(v).to_string()).collect();
+            let counts: Vec<String> = (0..addrs_r.len()).map(|i| owners_r(ctxr, i).to_string()).collect();
             drop(r);
             format!("(heap {} (alias {}) (owners {}))", out, alias, counts.join(" "))
         }));
